@@ -332,7 +332,8 @@ def selectByPathFromCanonMap (scalars : Scalars) (canonMap : CanonStreamMap) (h 
     match body, canonMap.index streamMapKey with
     | b :: bs, some canonStream => selectByPathFromCanonMapStream scalars canonStream b bs   -- csm.$.key... case
     | [], some canonStream => .ok (.arr canonStream)                                          -- csm.$.key case
-    | _, none => .ok (.arr [])                                                                -- csm.$.non_existing_key case
+    | b :: bs, none => selectByPathFromCanonMapStream scalars [] b bs                         -- csm.$.non_existing_key.[0]... case (the key group is empty)
+    | [], none => .ok (.arr [])                                                               -- csm.$.non_existing_key case
   | .error e => .error e
   | .panic s => .panic s
 
